@@ -454,6 +454,9 @@ fn group_seeds(_ctx: &SeedCtx) -> Vec<Seed> {
 /// The same bytes go through every public way into the crate.
 fn wmo_drive(_s: &Seed, data: &[u8], p: &mut Probe) {
     let parsed = p.call("parse_wmo", || wow_wmo::parse_wmo(&mut Cursor::new(data)));
+    // a valid root is no valid group and vice versa, and the legacy group parser is a stub that always errs:
+    // "the seed did what a valid file does" = the format-detecting entry point accepted it
+    p.seed_valid = Some(parsed.is_some());
     if let Some(w) = parsed {
         p.call_plain("ParsedWmo accessors", || {
             let _ = w.file_type();
